@@ -10,7 +10,7 @@ Local Open Scope nat_scope.
 Definition le_res {A : Type} (r : pres A) (s : str) : Prop :=
   match r with
   | POk _ rest => length rest <= length s
-  | PFail p => length p <= length s
+  | PFail p _ => length p <= length s
   end.
 
 Lemma drop_ws_le : forall s, length (drop_ws s) <= length s.
